@@ -36,6 +36,10 @@ def find_schema(schema, name):
     return None
 
 
+def quoted(s):
+    return b'"' + s.replace(b'\\', b'\\\\').replace(b'"', b'\\"').replace(b'$', b'\\$') + b'"'
+
+
 def pr_value(o, so, i, pf):
     if pf:
         return b'<' + o.name + b'#%d>' % i
@@ -50,7 +54,7 @@ def pr_value(o, so, i, pf):
         return b'true' if v == '1' else b'false'
     if k == 'str':
         s = v or b''
-        return b'"' + s.replace(b'\\', b'\\\\').replace(b'"', b'\\"') + b'"'
+        return quoted(s)
     return b''
 
 
@@ -63,7 +67,7 @@ def pr_opt(o, so, eff, ind, pos, st):
     if o.kind == 'sec':
         for v, s in enumerate(o.vals):
             if so is not None and so.flags & F['TITLE']:
-                out += pad + o.name + b' "' + (s.title if s.title is not None else b'(null)') + b'" {\n'
+                out += pad + o.name + b' ' + quoted(s.title or b'') + b' {\n'
             else:
                 out += pad + o.name + b' {\n'
             out += pr_cfg(s, so.sub if so else [], eff, ind + 1, pos + (v,), st)
